@@ -68,60 +68,91 @@ Qed.
 Lemma is_ok_iff : forall r, is_ok r = true <-> r = Ok.
 Proof. destruct r; cbn; split; intros H; try reflexivity; discriminate. Qed.
 
-(* every accepted configuration is supported, and nothing supported is refused: all 1920 configurations *)
-Lemma accepts_sweep : forallb (fun c => Bool.eqb (is_ok (accepts c)) (supportedb c)) all_configs = true.
+(* the sweeps run over all 1920 configurations AND both values of the switch fixed_F6 *)
+Lemma sweep2 : forall P : bool -> config -> bool,
+  forallb (fun f => forallb (P f) all_configs) [false; true] = true -> forall f c, P f c = true.
+Proof.
+  intros P H f c. cbn in H. rewrite !andb_true_iff in H. destruct H as [H0 [H1 _]].
+  destruct f; [exact (sweep _ H1 c) | exact (sweep _ H0 c)].
+Qed.
+(* every accepted configuration is supported, and nothing supported is refused *)
+Lemma accepts_sweep : forallb (fun f => forallb (fun c =>
+  implb (g6 f c) (Bool.eqb (is_ok (accepts_gen f c)) (supportedb c))) all_configs) [false; true] = true.
 Proof. vm_compute. reflexivity. Qed.
-Lemma outcome_sweep : forallb (fun c => implb (is_ok (outcome c)) (is_ok (accepts c))) all_configs = true.
+Lemma supported_accepted_sweep : forallb (fun f => forallb (fun c =>
+  implb (supportedb c) (is_ok (accepts_gen f c))) all_configs) [false; true] = true.
 Proof. vm_compute. reflexivity. Qed.
-Lemma outcome_class_sweep :
-  forallb (fun c => match accepts c with Ok => true | r => crash_gen c || result_eqb (outcome c) r end) all_configs = true.
+Lemma outcome_sweep : forallb (fun f => forallb (fun c =>
+  implb (is_ok (outcome_gen f c)) (is_ok (accepts_gen f c))) all_configs) [false; true] = true.
 Proof. vm_compute. reflexivity. Qed.
-Lemma nowarn_sweep : forallb (fun c => negb (result_eqb (outcome c) Warn)) all_configs = true.
+Lemma outcome_class_sweep : forallb (fun f => forallb (fun c =>
+  match accepts_gen f c with Ok => true | r => crash_gen c || result_eqb (outcome_gen f c) r end) all_configs) [false; true] = true.
 Proof. vm_compute. reflexivity. Qed.
-Lemma dispatch_sweep :
-  forallb (fun c => implb (is_ok (accepts c) && entry_eqb (en c) ERun)
-                          (match named_method (so c) with
-                           | Some m => match m, solve_dispatch (be c) (so c) with
-                                       | MEuler, MEuler | MHeun, MHeun | MScipy, MScipy | MDiffrax, MDiffrax => true
-                                       | _, _ => false end
-                           | None => false end)) all_configs = true.
+Lemma nowarn_sweep : forallb (fun f => forallb (fun c =>
+  negb (result_eqb (outcome_gen f c) Warn) && negb (result_eqb (accepts_gen f c) Warn)) all_configs) [false; true] = true.
+Proof. vm_compute. reflexivity. Qed.
+Lemma dispatch_sweep : forallb (fun f => forallb (fun c =>
+  implb (is_ok (accepts_gen f c) && entry_eqb (en c) ERun)
+        (match named_method (so c) with
+         | Some m => match m, solve_dispatch (be c) (so c) with
+                     | MEuler, MEuler | MHeun, MHeun | MScipy, MScipy | MDiffrax, MDiffrax => true
+                     | _, _ => false end
+         | None => false end)) all_configs) [false; true] = true.
 Proof. vm_compute. reflexivity. Qed.
 
-Theorem accepts_iff_supported : forall c, accepts c = Ok <-> Supported c.
+Theorem accepts_gen_iff_supported : forall f c, g6 f c = true -> (accepts_gen f c = Ok <-> Supported c).
 Proof.
-  intros c. rewrite <- supportedb_iff, <- is_ok_iff.
-  pose proof (sweep _ accepts_sweep c) as H. cbn beta in H. apply eqb_prop in H. rewrite H. tauto.
+  intros f c G. rewrite <- supportedb_iff, <- is_ok_iff.
+  pose proof (sweep2 _ accepts_sweep f c) as H. cbn beta in H. rewrite G in H. cbn in H.
+  apply eqb_prop in H. rewrite H. tauto.
+Qed.
+(* the guards of the code selected by the switch fixed_F6 accept exactly the supported configurations, for every
+   configuration whose solver is validated at its entry point (run), or all of them once F6 is repaired *)
+Theorem accepts_iff_supported : forall c, g6 fixed_F6 c = true -> (accepts c = Ok <-> Supported c).
+Proof. intros c. apply accepts_gen_iff_supported. Qed.
+(* nothing supported is refused (no guard needed) *)
+Theorem supported_is_accepted : forall c, Supported c -> accepts c = Ok.
+Proof.
+  intros c H. apply supportedb_iff in H. pose proof (sweep2 _ supported_accepted_sweep fixed_F6 c) as S.
+  cbn beta in S. rewrite H in S. apply is_ok_iff. exact S.
 Qed.
 
 Theorem outcome_ok_accepts : forall c, outcome c = Ok -> accepts c = Ok.
 Proof.
-  intros c H. pose proof (sweep _ outcome_sweep c) as S. cbn beta in S.
-  rewrite H in S. cbn in S. apply is_ok_iff. exact S.
+  intros c H. pose proof (sweep2 _ outcome_sweep fixed_F6 c) as S. cbn beta in S.
+  unfold outcome in H. rewrite H in S. cbn in S. apply is_ok_iff. exact S.
 Qed.
 
-Theorem outcome_ok_supported : forall c, outcome c = Ok -> Supported c.
-Proof. intros c H. apply accepts_iff_supported, outcome_ok_accepts, H. Qed.
+Theorem outcome_ok_supported : forall c, g6 fixed_F6 c = true -> outcome c = Ok -> Supported c.
+Proof. intros c G H. apply (accepts_iff_supported c G), outcome_ok_accepts, H. Qed.
 
 (* a guard that fires is what the caller sees (same exception class), unless code generation itself crashed first
    (Fortran: f2py fails before `_solve` validates the solver) *)
 Theorem guard_error_surfaces : forall c e, accepts c = Err e -> crash_gen c = false -> outcome c = Err e.
 Proof.
-  intros c e H NC. pose proof (sweep _ outcome_class_sweep c) as S. cbn beta in S. rewrite H, NC in S.
-  destruct (outcome c) as [| |e']; cbn in S; try discriminate.
+  intros c e H NC. pose proof (sweep2 _ outcome_class_sweep fixed_F6 c) as S. cbn beta in S.
+  unfold accepts in H. unfold outcome. rewrite H, NC in S.
+  destruct (outcome_gen fixed_F6 c) as [| |e']; cbn in S; try discriminate.
   destruct e, e'; cbn in S; try discriminate; reflexivity.
 Qed.
 
 Lemma outcome_not_warn : forall c, outcome c <> Warn.
 Proof.
-  intros c H. pose proof (sweep _ nowarn_sweep c) as S. cbn beta in S. rewrite H in S. discriminate.
+  intros c H. pose proof (sweep2 _ nowarn_sweep fixed_F6 c) as S. cbn beta in S.
+  unfold outcome in H. rewrite H in S. discriminate.
+Qed.
+Lemma accepts_not_warn : forall c, accepts c <> Warn.
+Proof.
+  intros c H. pose proof (sweep2 _ nowarn_sweep fixed_F6 c) as S. cbn beta in S.
+  unfold accepts in H. rewrite H, andb_false_r in S. discriminate.
 Qed.
 
 (* a validated solver name never falls through the if-chain of _solve *)
 Theorem validated_solver_dispatch : forall c, accepts c = Ok -> en c = ERun ->
   named_method (so c) = Some (solve_dispatch (be c) (so c)).
 Proof.
-  intros c H E. pose proof (sweep _ dispatch_sweep c) as S. cbn beta in S.
-  rewrite H, E in S. cbn in S.
+  intros c H E. pose proof (sweep2 _ dispatch_sweep fixed_F6 c) as S. cbn beta in S.
+  unfold accepts in H. rewrite H, E in S. cbn in S.
   destruct (named_method (so c)) as [m|]; [|discriminate].
   destruct m, (solve_dispatch (be c) (so c)); try discriminate; reflexivity.
 Qed.
